@@ -27,23 +27,24 @@ import OG.Generated.C09
 
 namespace OG.C09
 
+/-- times (seconds relative to a base) and value codes are plain integers. -/
 abbrev Time := Int
 abbrev Val := Int
 
 /-- one cell of one column: the time of the row and the value (`none` = null). -/
 structure Row where
-  t : Time
-  v : Option Val
+  t : Int
+  v : Option Int
 deriving DecidableEq, Repr, Inhabited
 
 /-- `record.ColMeta`. `min`/`max` are (value, time); `first`/`last` are (time, value). -/
 structure Stats where
   count : Nat := 0
-  sum : Val := 0
-  min : Option (Val × Time) := none
-  max : Option (Val × Time) := none
-  first : Option (Time × Val) := none
-  last : Option (Time × Val) := none
+  sum : Int := 0
+  min : Option (Int × Int) := none
+  max : Option (Int × Int) := none
+  first : Option (Int × Int) := none
+  last : Option (Int × Int) := none
 deriving DecidableEq, Repr, Inhabited
 
 def Stats.empty : Stats := {}
@@ -51,11 +52,11 @@ def Stats.empty : Stats := {}
 /-! ### combination in scan order -/
 
 /-- `if agg[minIndex] > v { take v }` : the earlier one stays on a tie. -/
-def seqMin (a b : Val × Time) : Val × Time := if b.1 < a.1 then b else a
+def seqMin (a b : Int × Int) : Int × Int := if b.1 < a.1 then b else a
 /-- `if agg[maxIndex] < v { take v }`. -/
-def seqMax (a b : Val × Time) : Val × Time := if a.1 < b.1 then b else a
-def keepLeft (a _b : Time × Val) : Time × Val := a
-def keepRight (_a b : Time × Val) : Time × Val := b
+def seqMax (a b : Int × Int) : Int × Int := if a.1 < b.1 then b else a
+def keepLeft (a _b : Int × Int) : Int × Int := a
+def keepRight (_a b : Int × Int) : Int × Int := b
 
 def optComb {α : Type} (f : α → α → α) : Option α → Option α → Option α
   | none, b => b
@@ -84,13 +85,13 @@ def buildStats (rows : List Row) : Stats := rows.foldl (fun s r => s.seq (Stats.
 /-! ### combination of records of different containers: `immutable.AggregateData` -/
 
 /-- minMeta: base replaces new iff `new.v > base.v || (new.v == base.v && new.t > base.t)`. -/
-def pickMin (n b : Val × Time) : Val × Time := if b.1 < n.1 ∨ (b.1 = n.1 ∧ b.2 < n.2) then b else n
+def pickMin (n b : Int × Int) : Int × Int := if b.1 < n.1 ∨ (b.1 = n.1 ∧ b.2 < n.2) then b else n
 /-- maxMeta: `new.v < base.v || (new.v == base.v && new.t > base.t)`. -/
-def pickMax (n b : Val × Time) : Val × Time := if n.1 < b.1 ∨ (b.1 = n.1 ∧ b.2 < n.2) then b else n
+def pickMax (n b : Int × Int) : Int × Int := if n.1 < b.1 ∨ (b.1 = n.1 ∧ b.2 < n.2) then b else n
 /-- firstMeta: `new.t > base.t`, or equal times and `compareMin(new, base)` (new.v < base.v). -/
-def pickFirst (n b : Time × Val) : Time × Val := if b.1 < n.1 ∨ (b.1 = n.1 ∧ n.2 < b.2) then b else n
+def pickFirst (n b : Int × Int) : Int × Int := if b.1 < n.1 ∨ (b.1 = n.1 ∧ n.2 < b.2) then b else n
 /-- lastMeta: `new.t < base.t`, or equal times and `compareMin(new, base)`. -/
-def pickLast (n b : Time × Val) : Time × Val := if n.1 < b.1 ∨ (b.1 = n.1 ∧ n.2 < b.2) then b else n
+def pickLast (n b : Int × Int) : Int × Int := if n.1 < b.1 ∨ (b.1 = n.1 ∧ n.2 < b.2) then b else n
 
 /-- ⊕ : `AggregateData(new := a, base := b)`. -/
 def Stats.merge (a b : Stats) : Stats where
@@ -108,22 +109,22 @@ def mergeAll (l : List Stats) : Stats := l.foldl Stats.merge {}
 abbrev Segment := List Row
 abbrev Chunk := List Segment
 
-def inRange (lo hi : Time) (r : Row) : Bool := decide (lo ≤ r.t) && decide (r.t ≤ hi)
+def inRange (lo hi : Int) (r : Row) : Bool := decide (lo ≤ r.t) && decide (r.t ≤ hi)
 
 /-- `findRowIdxRange` on a time-sorted segment: skip the rows before `lo`, take those up to `hi`. -/
-def rowsInRange (lo hi : Time) (s : Segment) : Segment :=
+def rowsInRange (lo hi : Int) (s : Segment) : Segment :=
   (s.dropWhile (fun r => decide (r.t < lo))).takeWhile (fun r => decide (r.t ≤ hi))
 
 /-- the time range recorded per segment in the chunk meta: first and last row. -/
-def segRange (s : Segment) : Option (Time × Time) :=
+def segRange (s : Segment) : Option (Int × Int) :=
   match s.head?, s.getLast? with
   | some a, some b => some (a.t, b.t)
   | _, _ => none
 
 /-- `MinMaxTime()` of the chunk: first row of the first segment, last row of the last one. -/
-def chunkRange (c : Chunk) : Option (Time × Time) := segRange c.flatten
+def chunkRange (c : Chunk) : Option (Int × Int) := segRange c.flatten
 
-def segOverlaps (lo hi : Time) (s : Segment) : Bool :=
+def segOverlaps (lo hi : Int) (s : Segment) : Bool :=
   match segRange s with
   | some (a, b) => overlaps lo hi a b
   | none => false
@@ -133,7 +134,7 @@ def storedStats (c : Chunk) : Stats := buildStats c.flatten
 
 /-- the row-level answer of `readSumCountFromData` / `readMinMaxFromData` for a partially covered
 chunk: the segments that overlap the range, each restricted to the range, scanned in order. -/
-def scanChunk (lo hi : Time) (c : Chunk) : Stats :=
+def scanChunk (lo hi : Int) (c : Chunk) : Stats :=
   c.foldl (fun s seg => if segOverlaps lo hi seg then s.seq (buildStats (rowsInRange lo hi seg)) else s) {}
 
 def noNulls (s : Segment) : Bool := s.all (fun r => r.v.isSome)
@@ -144,7 +145,7 @@ def noNulls (s : Segment) : Bool := s.all (fun r => r.v.isSome)
 2. no nulls in the segment and the segment starts inside the range: row 0, at the *segment's*
    first time (repaired; the code reported the chunk's first time);
 3. otherwise the first row in range that has a value. -/
-def segFirst (storedMin : Option (Val × Time)) (lo hi : Time) (seg : Segment) : Option (Time × Val) :=
+def segFirst (storedMin : Option (Int × Int)) (lo hi : Int) (seg : Segment) : Option (Int × Int) :=
   match segRange seg with
   | none => none
   | some (a, b) =>
@@ -161,7 +162,7 @@ def segFirst (storedMin : Option (Val × Time)) (lo hi : Time) (seg : Segment) :
       | none => fromData
 
 /-- the same for `last` (segments are visited from the last one). -/
-def segLast (storedMax : Option (Val × Time)) (lo hi : Time) (seg : Segment) : Option (Time × Val) :=
+def segLast (storedMax : Option (Int × Int)) (lo hi : Int) (seg : Segment) : Option (Int × Int) :=
   match segRange seg with
   | none => none
   | some (a, b) =>
@@ -177,19 +178,22 @@ def segLast (storedMax : Option (Val × Time)) (lo hi : Time) (seg : Segment) : 
       | some (v, t) => if decide (b ≤ hi) && decide (t = b) then some (b, v) else fromData
       | none => fromData
 
-def chunkFirst (lo hi : Time) (c : Chunk) : Option (Time × Val) :=
+def chunkFirst (lo hi : Int) (c : Chunk) : Option (Int × Int) :=
   c.findSome? (segFirst (storedStats c).min lo hi)
 
-def chunkLast (lo hi : Time) (c : Chunk) : Option (Time × Val) :=
+def chunkLast (lo hi : Int) (c : Chunk) : Option (Int × Int) :=
   c.reverse.findSome? (segLast (storedStats c).max lo hi)
 
+/-- count, sum, min, max of `readSegmentMetaRecord` (`readSumCount`, `readMinMax`): the stored
+record when `allRowsInRange`, the scan of the overlapping segments otherwise. -/
+def chunkBody (lo hi : Int) (c : Chunk) : Stats :=
+  match chunkRange c with
+  | some (a, b) => if allRowsInRange lo hi a b then storedStats c else scanChunk lo hi c
+  | none => {}
+
 /-- `readSegmentMetaRecord`: the record one chunk contributes for the range. -/
-def chunkStats (lo hi : Time) (c : Chunk) : Stats :=
-  let body : Stats :=
-    match chunkRange c with
-    | some (a, b) => if allRowsInRange lo hi a b then storedStats c else scanChunk lo hi c
-    | none => {}
-  { body with first := chunkFirst lo hi c, last := chunkLast lo hi c }
+def chunkStats (lo hi : Int) (c : Chunk) : Stats :=
+  { chunkBody lo hi c with first := chunkFirst lo hi c, last := chunkLast lo hi c }
 
 /-! ### one series: memtable rows and chunks -/
 
@@ -199,7 +203,7 @@ structure SeriesData where
   chunks : List Chunk   -- one per file that holds the series, in precedence order (newest first)
 
 /-- the un-hinted answer (statistics path): memtable rows in range, ⊕ every chunk's record. -/
-def aggViaStats (lo hi : Time) (d : SeriesData) : Stats :=
+def aggViaStats (lo hi : Int) (d : SeriesData) : Stats :=
   (d.chunks.map (chunkStats lo hi)).foldl Stats.merge (buildStats (d.mem.filter (inRange lo hi)))
 
 /-- insert a cell into a time-sorted row list; an existing non-null cell wins (it comes from a
@@ -213,12 +217,12 @@ def insertRow (r : Row) : List Row → List Row
 
 /-- the rows of one column the plain select returns: containers in precedence order, each
 restricted to the range, merged key by key (last write wins, field by field). -/
-def viewRows (lo hi : Time) (d : SeriesData) : List Row :=
+def viewRows (lo hi : Int) (d : SeriesData) : List Row :=
   let cs : List (List Row) := d.mem :: d.chunks.map (fun c => c.flatten)
   cs.foldl (fun acc c => (c.filter (inRange lo hi)).foldl (fun a r => insertRow r a) acc) []
 
 /-- the row-level answer: the statistics of the rows of the plain select. -/
-def aggRows (lo hi : Time) (d : SeriesData) : Stats := buildStats (viewRows lo hi d)
+def aggRows (lo hi : Int) (d : SeriesData) : Stats := buildStats (viewRows lo hi d)
 
 /-- mean = sum / count as an exact fraction (numerator, denominator); none when there is no value. -/
 def Stats.mean (s : Stats) : Option (Int × Nat) := if s.count = 0 then none else some (s.sum, s.count)
